@@ -11,6 +11,17 @@ def c02(prop, tier, verdict):
     cov, _ = eng_sess.run(prop, tier, verdict)
     return 'model_checking', cov, SESS_ASSUME
 
+def c08(prop, tier, verdict):
+    cov, _ = eng_sess.run(prop, tier, verdict)
+    # Peer.Close() at the end of every index history (sessions that took over ids, handlers still running): spec/Hub.tla, PHub PeerClose
+    hcov, _ = eng_hub.run(prop, tier, verdict)
+    cov.update(hcov)
+    cov['traces_validated_against_impl'] += hcov['hub_traces_validated']
+    cov['evaluations'] += hcov['hub_scenarios']
+    cov['distinct_nontrivial'] += hcov['hub_distinct_nontrivial']
+    cov['samples'].append({'hub_history': hcov['hub_sample']})
+    return 'model_checking', cov, SESS_ASSUME + ['peer level: every index history of spec/Hub.tla ends with Peer.Close() while the handlers that are still running run on (15 ms observation window for a Close that returns too early)']
+
 def c07(prop, tier, verdict):
     cov, _ = eng_sess.run(prop, tier, verdict)
     hcov, _ = eng_hub.run(prop, tier, verdict)
@@ -252,7 +263,7 @@ CHECKS = {
     'C05': c05,
     'C12': c12,
     'C02': c02,
-    'C08': c02,
+    'C08': c08,
     'C07': c07,
     'C03': c_disp,
     'C04': c_disp,
